@@ -88,6 +88,7 @@ type FuncSpec struct {
 	Binds      []CallBind
 	Implements string // interface contract this method must satisfy
 	AfterLoop  []CallAssert // "after loop N: assert e" (Ordinal = loop ordinal)
+	NoRecursion []string   // property tags of a "no-recursion" clause: the function must not reach itself through static calls
 	Fresh      []string // names of results that are freshly allocated
 	NoSafety   bool
 	Params     []Param // for stubs/interfaces: parameter names
@@ -307,7 +308,7 @@ func parseFnHeader(s string) (name string, params []Param, ret string, body stri
 }
 
 var clauseKeywords = []string{"requires", "ensures", "modifies", "loop", "use", "pure", "inline", "allow-panic",
-	"check-overflow", "ghost", "bind", "implements", "after", "trusted", "before", "fresh", "no-safety", "params", "results", "induction", "axiom"}
+	"check-overflow", "ghost", "bind", "implements", "after", "no-recursion", "trusted", "before", "fresh", "no-safety", "params", "results", "induction", "axiom"}
 
 func startsWithKeyword(s string) (string, string, bool) {
 	for _, k := range clauseKeywords {
@@ -552,6 +553,12 @@ func (sf *SpecFile) addItem(it *rawItem, pkg string) error {
 					fs.Modifies = append(fs.Modifies, e)
 					fs.ModSrc = append(fs.ModSrc, m)
 				}
+			case "no-recursion":
+				_, tg := extractTags(l.text)
+				if len(tg) == 0 {
+					tg = []string{"*"}
+				}
+				fs.NoRecursion = tg
 			case "implements":
 				fs.Implements = strings.TrimSpace(l.text)
 			case "pure":
